@@ -33,7 +33,7 @@ P = 'C17'
 BUDGETS = {'C17': (45, 900, 100)}
 LEVELS = {'C17': 'exploration'}
 PROBES = {'C17': ['encoded_crlf_in_path', 'encoded_crlf_in_login', 'encoded_nul', 'multiline_reply', 'inner_line_with_digits',
-                  'reply_split_across_reads', 'ok226_before_data_eof', 'data_eof_before_226', 'data_reset', 'no_completion_reply',
+                  'reply_split_across_reads', 'negative_completion_after_codeless_line', 'ok226_before_data_eof', 'data_eof_before_226', 'data_reset', 'no_completion_reply',
                   'negative_completion', 'error_reply_step', 'listing', 'control_reuse', 'download_ok', 'metamorphic', 'big_file', 'slow_transfer', 'data_stall', 'control_cut_inside_reply']}
 INFO = {'C17': {
     'rule': 'workload = 1..3 FTP fetches (file or listing) on one control connection: URL path/user/password with drawn bytes '
@@ -361,7 +361,7 @@ class _Control:
             if cut:
                 dc.send(content[:cut])
             dc.reset()
-            self.reply(v + '.end', h.stape.choice((426, 451), 'abort.code'), h.stape.choice(ABORT_TEXTS, 'abort.text'))
+            self.reply(v + '.end', h.stape.choice((426, 451, 450, 550), 'abort.code'), h.stape.choice(ABORT_TEXTS, 'abort.text'))
             h.r.probes['data_reset'] += 1
             h.r.faults['ftp_data_reset'] += 1
         elif mode == 'negative_completion':
@@ -370,7 +370,16 @@ class _Control:
                 dc.send(content[:cut])
             dc.finish()
             info['eof'] = True
-            self.reply(v + '.end', h.stape.choice((426, 451, 552), 'abort.code'), h.stape.choice(ABORT_TEXTS, 'abort.text'))
+            if h.multi_ok and h.stape.chance(1, 6, 'abort.after_codeless_line'):
+                # a line without a code (empty, or a stray banner word) in front of a multi-line negative reply whose text mentions
+                # another code: whatever the client makes of the stray line, the server never confirmed the transfer
+                code = h.stape.choice((426, 451), 'abort.code')
+                stray = h.stape.choice((b'', b'busy', b' '), 'abort.stray')
+                self.say(stray + b'\r\n' + b'%d-Transfer aborted\r\n226 of 500 blocks were sent\r\n%d Closing data connection\r\n' % (code, code))
+                self.out_of_grammar = True
+                h.r.probes['negative_completion_after_codeless_line'] += 1
+            else:
+                self.reply(v + '.end', h.stape.choice((426, 451, 552, 450, 550), 'abort.code'), h.stape.choice(ABORT_TEXTS, 'abort.text'))
             h.r.probes['negative_completion'] += 1
             h.r.faults['ftp_negative_completion'] += 1
         elif mode == 'no_completion':
@@ -549,6 +558,8 @@ def judge(r, fetches, outcomes, h, replies, sends, files, label=''):
         r.violate(P, 'command-injection', 'unexpected-verb', 'server received %r%s' % (h.unexpected_verbs[:3], label))
     # (b) replies read whole
     for sess in srv.sessions:
+        if getattr(sess, 'out_of_grammar', False):
+            continue        # a line without a code was sent: RFC 959 gives no assembly for it, only the completion oracle applies
         ref, _ = refftp.assemble_replies(bytes(sess.sent))
         got = [(code, text) for cid, code, text in replies if cid == sess.conn.id]
         for i, (code, text) in enumerate(got):
